@@ -49,7 +49,7 @@ def D(*a):
 # ---------------------------------------------------------------------------- pools (JSON level)
 INTS = [0, 1, -1, 2, 3, 7, -3, 43789]
 DECS = [0.5, -2.5, 0.1, 2.675]
-NUMTEXT = ['3', '-3', '3.5']
+NUMTEXT = ['3', '-3', '3.5', '\x1f3.5', '2.5\x1c']        # the last two: padded with separator control characters, which count as blanks
 BADTEXT = ['abc', '', '\u00b2', '\u2460\u2082',      # incl. digit-like characters that are not decimal digits
            'inf', 'nan', '-Infinity', '1_000',          # ... and what only a programming language reads as a number
            '99999999999999999999 1', '1.2.99999999999',  # ... and what a lenient date reader chokes on
@@ -124,7 +124,7 @@ ISO_RE = re.compile(r'(\d{4})-(\d{2})-(\d{2})(?:T00:00:00Z)?\Z')      # a midnig
 CHANNELS = 3
 
 BOUNDS = {
-    'quick': '26 scalars (8 ints, 4 decimals, 2 logicals, blank, 3 numeric texts, 2 other texts, 5 date(-time)s '
+    'quick': '26 scalars (8 ints, 4 decimals, 2 logicals, blank, 5 numeric texts (two padded with control blanks), 2 other texts, 5 date(-time)s '
              '>= 1 Mar 1900, 1 ISO date text): all 676 ordered pairs x {+,-,*,/} x routes {variable, cell, '
              'literal}, + and * also reversed; & on all ordered pairs of 29 scalars x 3 routes; flat arrays of '
              'length 1..3 over 7 element values x 9 scalars x 4 ops x both sides; array x array: all pairs of '
@@ -167,8 +167,8 @@ def classify(v):
     if isinstance(v, datetime.datetime):
         return ('D', serial(v), False)
     if isinstance(v, str):
-        if NUM_RE.match(v):
-            return ('N', Fraction(v), True)
+        if NUM_RE.match(v.strip()):      # blanks around it (what str.strip takes off, separator control characters included) do not count
+            return ('N', Fraction(v.strip()), True)
         m = ISO_RE.match(v)
         if m:
             return ('D', serial(datetime.datetime(int(m.group(1)), int(m.group(2)), int(m.group(3)))), True)
